@@ -124,6 +124,62 @@ CHECKS = {
    ref="DESIGN.md §4 C18, §9"),
 }
 
+
+CHECKS.update({
+ "C02": dict(
+   text="Theorems: the chunked copy loop of fs.tools.copy_file_data transfers every byte in order for every chunk size (None, "
+        "negative, any positive) and every pattern of short reads, never writes an empty or over-long chunk, copies nothing for "
+        "chunk size 0 (boundary stated); the digest is fed exactly the file; make_stream's layer table for the 24 mode spellings "
+        "(by computation). " + CORR + "Real copy_file_data vs the model with short-reading readers; 8 write paths x 8 read paths x "
+        "boundary lengths per chunk size (incl. 1 MiB+-1, 5 MiB thorough) x backends; text with 7 encoding/errors x 5 newline "
+        "settings against CPython's io.TextIOWrapper(io.BytesIO).",
+   note=TB + "Encoding/decoding/newline translation is CPython's io layer: differential only. A blocking reader returns b'' only at "
+        "EOF (hypothesis of the loop theorem).",
+   technique="Coq proof of the copy loop + write-path x read-path differential incl. CPython text oracle",
+   ref="DESIGN.md §4 C02, §9"),
+ "C03": dict(
+   text="Theorems for every string: validatepath = component resolution (absolute, clean, no '..') or IllegalBackReference exactly "
+        "when it climbs above the root; the OSFS system path is the root extended by whole clean components; SubFS.delegate_path "
+        "(any nesting depth) stays below its sub-directory and never reaches a sibling; escapes are rejected. " + CORR +
+        "Reflection over every public method x path position x a '..'-heavy stream on OSFS with os/io/shutil/scandir logged and a "
+        "canary tree, SubFS depth 1-3 over a recording parent, MountFS over recording members, crafted zip/tar archives.",
+   note=TB + "Assumes no symbolic link below the root leaves it. MountFS routing is proved in C17; archive member handling in C15.",
+   technique="Coq proof (path algebra) + OS-boundary call monitoring",
+   ref="DESIGN.md §4 C03, §9"),
+ "C07": dict(
+   text="Theorems on an exception-monad model of fs.move.move_file / move_dir with a step counter: for every fault position, every "
+        "exception kind (FSError, OSError, process stop) and every prefix left by a failing write, each source file's bytes are at "
+        "the source or complete at the destination; a fired fault is reported; the source is removed only after every copy "
+        "completed. The model's primitive traces are compared with the real code's for every fault position (vm_compute). "
+        "Fault-injecting proxies around MemoryFS/OSFS (and the backends' own overrides): the step count n of each call is measured "
+        "fault-free, then step k = 0..n-1 is failed (complete enumeration per call), with workers 0-4.",
+   note=TB + "Python finally blocks still run on a simulated process stop. Buffered OSFS close is exercised only. os.rename "
+        "failure falling back to copy is by design.",
+   technique="Coq proof over all fault positions + exhaustive per-call fault enumeration on the real code",
+   ref="DESIGN.md §4 C07, §9"),
+ "C09": dict(
+   text="Theorems on a transition-system model of fs._bulk.Copier for any number of workers, any file list, any fault set and "
+        "every schedule: bookkeeping invariants; when the producer returns all workers are done, the queue is empty, every opened "
+        "handle is closed, the call raised iff some transfer failed, and without faults the copied set is all files (hence "
+        "schedule-independent, N=0 being the sequential run); no reachable non-final configuration is deadlocked; every run can be "
+        "extended to a final one. The real Copier runs on real threads under a baton scheduler (patched Queue/_Worker, tracked "
+        "file proxies): exhaustive schedules for small cases, random ones for larger, faults in any read/write/close; sampled "
+        "traces are replayed on the model inside Coq.",
+   note=TB + "Atomicity of the modelled actions under the GIL is an assumption probed by the scheduler. Producer open faults and "
+        "copy_modified_time are exercised by the harness only.",
+   technique="Coq proof over all schedules (invariants, progress) + controlled-schedule execution of the real threads",
+   ref="DESIGN.md §4 C09, §9"),
+ "C20": dict(
+   text="Theorems on a scanner model of the FS-URL regex and on the MLSD time decoder: parse is total (Ok or ParseError, never "
+        "another exception); split(build parts) = parts under explicit side conditions (the '@'-in-path ambiguity is proved as a "
+        "refutation witness); decoded times are in range, the decoder never raises. The Coq scanner is cross-checked against the real "
+        "regex by vm_compute on every run. Real parsers: exhaustive short URL strings (2.4 M) + random ones, round trips from tuples, "
+        "grammar-generated unix/Windows LIST lines (all 4096 permission strings), MLSD facts, FEAT replies and garbage.",
+   note=TB + "LIST/MLSD/FEAT parsers have no Coq model (correspondence only). unquote/parse_qs/strptime/timegm are stdlib.",
+   technique="Coq proof on the URL scanner/time decoder + grammar-based and exhaustive differential fuzzing",
+   ref="DESIGN.md §4 C20, §9"),
+})
+
 def main():
     checks = []
     for pid in sorted(CHECKS):
